@@ -179,13 +179,30 @@ impl QueryEngine {
             .with_file_extension(".parquet")
             .with_collect_stat(true);
 
+        // Chunks need not all have the same columns (series carry different label sets and the
+        // ingester flushes on every schema change): the table has every column of every selected
+        // chunk, and a chunk that lacks one reads as NULL there. Inferring from the first chunk
+        // alone made a statement fail, or lose a column, depending on which chunk came first.
+        let state = self.ctx.state();
+        let mut chunk_schemas = Vec::with_capacity(table_urls.len());
+        for url in &table_urls {
+            let schema = listing_options
+                .infer_schema(&state, url)
+                .await
+                .map_err(|e| {
+                    Error::Internal(format!("Failed to infer schema for metrics table: {}", e))
+                })?;
+            chunk_schemas.push(schema);
+        }
         let config = ListingTableConfig::new_with_multi_paths(table_urls)
-            .with_listing_options(listing_options)
-            .infer_schema(&self.ctx.state())
-            .await
-            .map_err(|e| {
+            .with_listing_options(listing_options);
+        let config = match Self::union_schema(&chunk_schemas) {
+            Some(schema) => config.with_schema(schema),
+            // column types that cannot be reconciled: as before, the first chunk decides
+            None => config.infer_schema(&state).await.map_err(|e| {
                 Error::Internal(format!("Failed to infer schema for metrics table: {}", e))
-            })?;
+            })?,
+        };
 
         let table = ListingTable::try_new(config)?;
 
@@ -197,6 +214,36 @@ impl QueryEngine {
         *self.registered_metrics_paths.write() = normalized_paths;
 
         Ok(())
+    }
+
+    /// All columns of the given chunk schemas, in order of first appearance; a column that some
+    /// chunk lacks is nullable. `None` if two chunks disagree on a column's type.
+    fn union_schema(schemas: &[SchemaRef]) -> Option<SchemaRef> {
+        let first = schemas.first()?;
+        if schemas.iter().all(|s| s.fields() == first.fields()) {
+            return Some(Arc::clone(first));
+        }
+        let merged =
+            arrow_schema::Schema::try_merge(schemas.iter().map(|s| s.as_ref().clone())).ok()?;
+        let fields: Vec<arrow_schema::Field> = merged
+            .fields()
+            .iter()
+            .map(|field| {
+                let everywhere = schemas
+                    .iter()
+                    .all(|s| s.field_with_name(field.name()).is_ok());
+                let field = field.as_ref().clone();
+                if everywhere {
+                    field
+                } else {
+                    field.with_nullable(true)
+                }
+            })
+            .collect();
+        Some(Arc::new(arrow_schema::Schema::new_with_metadata(
+            fields,
+            first.metadata().clone(),
+        )))
     }
 
     async fn register_empty_metrics_table(&self) -> Result<()> {
